@@ -30,7 +30,9 @@ class DirHandler(BaseHandler):
     def prep_initfiles(self) -> None:
         """Initialize the list of files.  Ignore the files we're suppoed to."""
         self.files = []
-        dirfiles = self.vfs.listdir(self.getselector())
+        # In name order, not in the order the OS happens to enumerate them:
+        # subclasses process link files while the names are looked at.
+        dirfiles = sorted(self.vfs.listdir(self.getselector()))
         ignorepatt = self.config.get("handlers.dir.DirHandler", "ignorepatt")
         for file in dirfiles:
             if self.prep_initfiles_canaddfile(
